@@ -1,6 +1,6 @@
 (* C16 - Master-server filters are encoded faithfully and paging is complete. *)
 From Coq Require Import Permutation.
-From GD Require Import Base.Prelude Model.Strings Model.Buffer Model.Net Model.Master Proofs.Str Spec.MasterSpec.
+From GD Require Import Base.Prelude Model.Strings Model.StrOps Model.Buffer Model.Net Model.Master Proofs.Str Spec.MasterSpec.
 From GD Require Import Proofs.ValveTransport Proofs.Master.
 
 (* The filter string conforms to the protocol's grammar and denotes exactly the
